@@ -352,6 +352,8 @@ impl Prepared {
             let _ = c;
         }
         vsched::set_atomic_points(self.driver.atomic_points);
+        // "[held]" drivers: a thread may also be descheduled while it merely holds a lock (visible to try-lock style code)
+        vsched::set_held_points(self.driver.label.contains("[held]"));
         let mut out: Vec<Thunk> = Vec::new();
         for (t, prog) in self.driver.threads.iter().enumerate() {
             let prog = prog.clone();
@@ -404,6 +406,7 @@ pub struct Quiescent {
 
 pub fn check_execution(p: &Prepared, out: &Outcome) -> Quiescent {
     vsched::set_atomic_points(false);
+    vsched::set_held_points(false);
     let mut fs: Vec<TFinding> = Vec::new();
     let d = &p.driver;
     let events = p.events.lock().unwrap().clone();
@@ -564,7 +567,7 @@ pub fn check_execution(p: &Prepared, out: &Outcome) -> Quiescent {
     // ---- C11 (under concurrency): every hit is shown to invalidate_on; "stale" means the body runs, "valid" means
     // exactly the value that was shown is returned
     for f in &p.funcs {
-        if !f.has_inval_on || f.has_cache_if || f.is_result || f.flavour == Flavour::Thread || f.limit.is_some() || f.ttl.is_some() || f.mem.is_some() || evicting {
+        if !f.has_inval_on || f.has_cache_if || f.is_result || f.flavour == Flavour::Thread || f.limit.map_or(false, |n| n < 2) || f.ttl.is_some() || f.mem.is_some() || evicting {
             continue;
         }
         let calls: Vec<&OpEvent> = events.iter().filter(|e| matches!(&e.op, TOp::Call { f: ff, .. } if *ff == f.id)).collect();
@@ -597,6 +600,20 @@ pub fn check_execution(p: &Prepared, out: &Outcome) -> Quiescent {
                 }
             }
         }
+        // a value that a refresh replaced must not come back: when the setup stored version 1 and some thread's call ran the
+        // body (and stored a later version), what the cache holds at the end is not version 1 again
+        let refreshed: BTreeSet<u32> = calls.iter().filter(|e| e.executed).filter_map(|e| if let TOp::Call { k, .. } = &e.op { Some(*k) } else { None }).collect();
+        for k in refreshed.iter().filter(|k| setup_keys.contains(k)) {
+            l1::log_take();
+            let r = (f.call)(*k);
+            let evs = l1::log_take();
+            let executed = evs.iter().any(|e| matches!(e, Ev::Exec { .. }));
+            if !executed && r.render() == l1::value(f.id, *k, 1) {
+                let det = format!("{}({k}): the setup stored {}, a thread's call ran the body again and stored a newer value, every caller has returned — and the cache serves {} again", f.fn_name, l1::value(f.id, *k, 1), r.render());
+                fs.push(TFinding { property: "C11", monitor: format!("{flav}/superseded-value-came-back"), detail: det.clone() });
+                fs.push(TFinding { property: "C01", monitor: format!("{flav}/superseded-value-came-back"), detail: det });
+            }
+        }
         // afterwards the cache still works: a call that finds its entry valid is served
         for k in calls.iter().filter_map(|e| if let TOp::Call { k, .. } = &e.op { Some(*k) } else { None }).collect::<BTreeSet<u32>>() {
             l1::log_take();
@@ -624,7 +641,8 @@ pub fn check_execution(p: &Prepared, out: &Outcome) -> Quiescent {
         }
         for e in events.iter().filter(|e| e.executed) {
             if let TOp::Call { f: ff, k } = &e.op {
-                if *ff == f.id && events.iter().any(|o| matches!(&o.op, TOp::Call { f: f2, k: k2 } if f2 == ff && k2 == k) && o.executed && o.end < e.start && o.thread != e.thread) {
+                let in_setup = d.setup.iter().any(|s| matches!(s, SOp::Op(TOp::Call { f: f2, k: k2 }) if f2 == ff && k2 == k));
+                if *ff == f.id && (in_setup || events.iter().any(|o| matches!(&o.op, TOp::Call { f: f2, k: k2 } if f2 == ff && k2 == k) && o.executed && o.end < e.start && o.thread != e.thread)) {
                     fs.push(TFinding { property: "C14", monitor: format!("{flav}/global-entry-not-shared"), detail: format!("thread {} recomputed {}({k}) although another thread had stored it before the call started", e.thread, f.fn_name) });
                 }
             }
@@ -1586,6 +1604,18 @@ pub fn drivers_for(property: &str, thorough: bool) -> Vec<Driver> {
                 push(format!("{}:two keys crossing", f.fn_name), vec![], vec![vec![call(f, 1), call(f, 2)], vec![call(f, 2), call(f, 1)]], None, false);
                 push(format!("{}:3 threads", f.fn_name), vec![], vec![vec![call(f, 1)], vec![call(f, 1), call(f, 2)], vec![call(f, 2)]], None, false);
             }
+            // a lookup of a stored key while another thread is inside a store / a hit's bookkeeping / an invalidation of the
+            // same cache, *holding* its locks: the lookup must wait or succeed, not report a miss ("[held]": threads may be
+            // descheduled while holding a lock, so try-lock style shortcuts see contention)
+            for fl in [Flavour::Global, Flavour::Async] {
+                for f in conc(fl).into_iter().filter(|f| f.limit.is_none() && f.ttl.is_none() && f.mem.is_none()) {
+                    push(format!("{}:resident read~store other [held]", f.fn_name), vec![SOp::Op(call(f, 1))], vec![vec![call(f, 1)], vec![call(f, 2)]], None, false);
+                    push(format!("{}:resident read~resident read [held]", f.fn_name), vec![SOp::Op(call(f, 1)), SOp::Op(call(f, 2))], vec![vec![call(f, 1)], vec![call(f, 2)]], None, false);
+                    if thorough {
+                        push(format!("{}:resident read~invalidate_with nothing [held]", f.fn_name), vec![SOp::Op(call(f, 1))], vec![vec![call(f, 1)], vec![TOp::InvWith { f: f.id, mask: 0 }]], None, false);
+                    }
+                }
+            }
             // two callers that both missed store the same key one after the other while a third thread looks it up:
             // the second store must not make the entry disappear for a moment (every policy has its own store path)
             for fl in [Flavour::Global, Flavour::Async] {
@@ -1633,7 +1663,21 @@ pub fn drivers_for(property: &str, thorough: bool) -> Vec<Driver> {
                 }
             }
         }
+        "C01" => {
+            // a hit's bookkeeping racing with a refresh of the same key, under the policies that write on a hit
+            for f in FUNCS.iter().filter(|f| f.family == "inval_on" && f.flavour != Flavour::Thread && matches!(f.pol(), Pol::Lfu | Pol::Arc | Pol::Tlru | Pol::Lru) && f.limit == Some(2) && f.ttl.is_none() && f.mem.is_none()) {
+                push(format!("{}:resident x2", f.fn_name), vec![SOp::Op(call(f, 1))], vec![vec![call(f, 1)], vec![call(f, 1)]], None, false);
+                if thorough {
+                    push(format!("{}:resident, twice + once", f.fn_name), vec![SOp::Op(call(f, 1))], vec![vec![call(f, 1), call(f, 1)], vec![call(f, 1)]], None, false);
+                }
+            }
+        }
         "C10" | "C11" => {
+            if property == "C11" {
+                for f in FUNCS.iter().filter(|f| f.family == "inval_on" && f.flavour != Flavour::Thread && matches!(f.pol(), Pol::Lfu | Pol::Arc | Pol::Tlru | Pol::Lru) && f.limit == Some(2) && f.ttl.is_none() && f.mem.is_none()) {
+                    push(format!("{}:resident x2", f.fn_name), vec![SOp::Op(call(f, 1))], vec![vec![call(f, 1)], vec![call(f, 1)]], None, false);
+                }
+            }
             let fam = if property == "C10" { "cache_if" } else { "inval_on" };
             for f in FUNCS.iter().filter(|f| f.family == fam && f.flavour != Flavour::Thread && f.policy.is_none() && f.limit.is_none() && f.ttl.is_none() && f.mem.is_none() && !f.is_result && (f.has_cache_if != f.has_inval_on)) {
                 // every verdict is a further branch of the exploration
